@@ -213,16 +213,18 @@ class SyntaxLines(Part):
 class Tracebacks(Part):
     name = "traceback"
     rule = ("generated modules (0-4 leading blank lines, 0-6 filler lines, 1-3 nested calls, failing line first/middle/last, with/without trailing newline, "
-            "tabs or spaces) written to a temp dir, imported, run; Traceback.from_exception rendered at width 120: every frame of the module has a "
+            "tabs or spaces) written to a temp dir as a .py / .pyw / extensionless / SConstruct / .tac file, imported, run; Traceback.from_exception rendered at width 120: every frame of the module has a "
             "line marked as failing that shows frame.lineno and linecache's text; non-trivial = >= 1 leading blank line or failing line is the last line")
     budget = {"quick": (8, 60), "thorough": (16, 500)}
     chunk = 60
 
     def strategy(self, tier):
-        return st.builds(lambda lead, filler, depth, pos, nl, tabs, wide, wrap, pb, rec, enc, rel, sl: {"lead": lead, "filler": filler, "depth": depth, "pos": pos, "final_newline": nl, "tabs": tabs, "wide": wide, "wrap": wrap, "pagebreaks": pb, "recursive": rec,
+        return st.builds(lambda lead, filler, depth, pos, nl, tabs, wide, wrap, pb, rec, enc, rel, sl, fname: {"fname": fname, "lead": lead, "filler": filler, "depth": depth, "pos": pos, "final_newline": nl, "tabs": tabs, "wide": wide, "wrap": wrap, "pagebreaks": pb, "recursive": rec,
                                                                                               "encoding": enc, "relative": rel, "symlink": sl},
                          st.integers(0, 4), st.integers(0, 6), st.integers(1, 3), st.sampled_from(["first", "middle", "last"]), st.booleans(), st.booleans(), st.booleans(),
-                         st.sampled_from(["none", "none", "finally", "with"]), st.sampled_from([0, 0, 1, 4, 6]), st.sampled_from([0, 0, 1, 3]), st.sampled_from(["utf-8", "utf-8", "latin-1"]), st.sampled_from([False, False, True]), st.sampled_from([False, False, False, True]))
+                         st.sampled_from(["none", "none", "finally", "with"]), st.sampled_from([0, 0, 1, 4, 6]), st.sampled_from([0, 0, 1, 3]), st.sampled_from(["utf-8", "utf-8", "latin-1"]), st.sampled_from([False, False, True]), st.sampled_from([False, False, False, True]),
+                         # the file's name: a module, a windowed script, a script without an extension (as installed in bin/), an SCons / twisted file
+                         st.sampled_from(["genmod.py", "genmod.py", "genmod.py", "genmod.pyw", "genmod", "SConstruct", "genmod.tac"]))
 
     def check(self, spec, ctx):
         from rich.console import Console
@@ -294,7 +296,10 @@ class Tracebacks(Part):
             lines += ["class _Ctx:", "%sdef __enter__(self):" % ind, "%s%sreturn self" % (ind, ind), "%sdef __exit__(self, *exc):" % ind, "%s%sreturn False" % (ind, ind), ""]
         lines += body
         text = "\n".join(lines) + ("\n" if spec["final_newline"] else "")
-        path = os.path.join(d, "genmod.py")
+        fname = spec.get("fname", "genmod.py")
+        if fname != "genmod.py":
+            ctx.cls("file-named-" + fname)
+        path = os.path.join(d, fname)
         if spec.get("symlink") and not spec.get("relative"):
             # the module is imported through a path that goes up from a symlinked directory ("current -> releases/v2", "current/../shared/mod.py"):
             # collapsing "link/.." textually would name another file
@@ -303,10 +308,10 @@ class Tracebacks(Part):
             link = os.path.join(d, "current%d" % vi)
             if not os.path.exists(link):
                 os.symlink(os.path.join(real, "sub"), link)
-            with open(os.path.join(d, "genmod.py"), "w", encoding="utf-8") as decoy:
+            with open(os.path.join(d, fname), "w", encoding="utf-8") as decoy:
                 decoy.write("# another file with the same name\n" * 40)
-            target = os.path.join(real, "genmod.py")
-            path = os.path.join(link, "..", "genmod.py")
+            target = os.path.join(real, fname)
+            path = os.path.join(link, "..", fname)
             ctx.cls("path-through-symlink")
         if True:
             with open(path, "w", encoding=enc) as f:
@@ -324,7 +329,9 @@ class Tracebacks(Part):
                 f0 = glob["f0"]
             else:
                 code_name = shown_path = path
-                specm = importlib.util.spec_from_file_location("vp_c17_genmod_%d" % vi, path)
+                import importlib.machinery
+
+                specm = importlib.util.spec_from_file_location("vp_c17_genmod_%d" % vi, path, loader=importlib.machinery.SourceFileLoader("vp_c17_genmod_%d" % vi, path))
                 mod = importlib.util.module_from_spec(specm)
                 specm.loader.exec_module(mod)
                 f0 = mod.f0
